@@ -113,6 +113,7 @@ async def _run(hist, traveller):
                 rd = readers[i].reads
                 rep = readers[i].replies.pop(0) if readers[i].replies else b""
                 await asyncio.sleep(d)
+                traveller.shift(d)                  # the wall clock (time.time) moves with the loop's clock while the device takes its time
                 if readers[i].reads != rd or not readers[i].waiting or tasks[i].done():
                     readers[i].stale.append(rep)    # the client gave that read up: the reply arrives all the same and stays in the stream
                     continue
@@ -161,7 +162,8 @@ def with_slow_replies(rng, hist: Dict[str, Any]) -> Dict[str, Any]:
         ops = []
         for op in inst["ops"]:
             op = dict(op)
-            if rng.random() < 0.4:
+            # (create_schedule reads the wall clock a second time after the login reply: the model has ONE reading per operation)
+            if rng.random() < 0.4 and op["req"].get("op") != "createsched":
                 d = [0.0] * len(op["replies"])
                 d[rng.randrange(min(len(d), 3))] = rng.choice([0.5, 2.9, 3.5, 5.5, 10.4, 15.5, 31.0, 61.0, 121.0])
                 op["delays"] = d
@@ -175,10 +177,31 @@ def run_history(hist: Dict[str, Any]) -> str:
     with time_machine.travel(0.0, tick=False) as traveller:
         if hist.get("virtual_clock"):
             vl = VirtualClockLoop()
+            # the monotonic clocks follow the loop's virtual clock too (time.time follows it through the traveller), for code that measures
+            # how long a step took: `time.monotonic()` / `perf_counter()` wherever the library looks them up
+            import sys
+            import time as _time
+            origs = {n: getattr(_time, n) for n in ("monotonic", "perf_counter")}
+            base = {n: f() for n, f in origs.items()}
+            fakes = {n: (lambda n=n: base[n] + vl.time()) for n in origs}
+            patched = []
+            for n in origs:
+                setattr(_time, n, fakes[n])
+            for name, mod in list(sys.modules.items()):
+                if name.startswith("aioswitcher") and mod is not None:
+                    for k, v in list(vars(mod).items()):
+                        for n in origs:
+                            if v is origs[n]:
+                                setattr(mod, k, fakes[n])
+                                patched.append((mod, k, origs[n]))
             try:
                 asyncio.set_event_loop(vl)
                 outs = vl.run_until_complete(_run(hist, traveller))
             finally:
+                for n in origs:
+                    setattr(_time, n, origs[n])
+                for mod, k, o in patched:
+                    setattr(mod, k, o)
                 vl.close()
                 asyncio.set_event_loop(H.loop())
         else:
